@@ -8,3 +8,7 @@ import BB.Props.C01
 #print axioms BB.run_quick_infrul
 #print axioms BB.run_quick_xlimit
 #print axioms BB.run_quick_cycles
+#print axioms BB.run_quick_blanks_first
+#print axioms BB.run_quick_blanks_complete
+#print axioms BB.run_quick_no_early_spinout
+#print axioms BB.run_quick_no_early_halt
